@@ -43,6 +43,7 @@ type (
 		Vars   []QVar
 		Body   Expr
 		Trig   Expr // optional instantiation pattern
+		Trigs  []Expr // further terms of a multi-pattern
 	}
 	EOld struct{ X Expr }
 )
@@ -245,6 +246,7 @@ func (p *parser) parseExpr() (Expr, error) {
 		}
 		// optional instantiation trigger: forall k int trigger m[k] :: body
 		var trig Expr
+		var trigs []Expr
 		if p.isID("trigger") {
 			p.pos++
 			t, err := p.parseSum()
@@ -252,6 +254,14 @@ func (p *parser) parseExpr() (Expr, error) {
 				return nil, err
 			}
 			trig = t
+			for p.isOp(",") {
+				p.pos++
+				t2, err := p.parseSum()
+				if err != nil {
+					return nil, err
+				}
+				trigs = append(trigs, t2)
+			}
 		}
 		if err := p.expectOp("::"); err != nil {
 			return nil, err
@@ -260,7 +270,7 @@ func (p *parser) parseExpr() (Expr, error) {
 		if err != nil {
 			return nil, err
 		}
-		return &EQuant{fa, vars, body, trig}, nil
+		return &EQuant{fa, vars, body, trig, trigs}, nil
 	}
 	return p.parseImpl()
 }
@@ -569,6 +579,9 @@ type FuncContract struct {
 	Props       []string // property tags for the ensures clauses, optional
 	NoSweep     map[string]bool
 	NoFrame     bool
+	// ForwardTerms: frame facts also fire on reads of the older heap, so that facts known about an
+	// element before a call/append are re-stated for the newer heap (helps existential goals).
+	ForwardTerms bool
 	Nilable     map[string]bool
 	CS          []CSClause
 }
@@ -635,7 +648,7 @@ var clauseKeywords = map[string]bool{
 	"func": true, "requires": true, "ensures": true, "modifies": true, "writes": true, "inline": true, "pure": true,
 	"loop": true, "spec": true, "axiom": true, "lemma": true, "iface": true, "assert": true, "fresh": true,
 	"nilable-receiver": true, "trusted": true, "ghost": true, "guards": true, "lockinv": true, "cs": true,
-	"wait": true, "mode": true, "panics-when": true, "typeinv": true, "package": true, "nosweep": true, "noframe": true, "ifacegetters": true, "nilable": true,
+	"wait": true, "mode": true, "panics-when": true, "typeinv": true, "package": true, "nosweep": true, "noframe": true, "forward-terms": true, "ifacegetters": true, "nilable": true,
 }
 
 // LoadFile reads //@ lines of a Go contract file or every line of a .spec file.
@@ -907,6 +920,8 @@ func (cs *Contracts) LoadFile(path, pkgPath string, specOnly bool) {
 				cur.NilableRecv = true
 			case "noframe":
 				cur.NoFrame = true
+			case "forward-terms":
+				cur.ForwardTerms = true
 			case "nilable":
 				if cur.Nilable == nil {
 					cur.Nilable = map[string]bool{}
